@@ -26,19 +26,72 @@ Definition mini_fget (o : option val) : reply :=
 Definition mini_bget (o : option val) : reply :=
   match o with Some (VStr b) => RBulk (Some b) | _ => RNil end.
 
-(* glob: '*', '?' and literal bytes (the generated patterns use nothing else) *)
-Fixpoint glob (p : bytes) (k : bytes) {struct p} : bool :=
+(* CommandExecutor::glob_match, byte for byte: '*', '?', classes '[..]' (first ']' closes; a leading
+   '^' negates; "a-b" is a range when a third byte exists, an empty range contributes nothing; if
+   the expansion is empty the class bytes are taken literally; an unterminated '[' never matches;
+   a class never matches at the end of the key), everything else - also '\' - is a literal. *)
+Fixpoint split_class (p : bytes) : option (bytes * bytes) :=
   match p with
-  | [] => match k with [] => true | _ => false end
-  | c :: p' =>
-      if c =? 42 then
-        (fix star (k : bytes) : bool :=
-           glob p' k || match k with [] => false | _ :: k' => star k' end) k
-      else match k with
-           | [] => false
-           | x :: k' => if (c =? 63) || (c =? x) then glob p' k' else false
-           end
+  | [] => None
+  | c :: r => if c =? 93 then Some ([], r)
+              else match split_class r with Some (cs, rest) => Some (c :: cs, rest) | None => None end
   end.
+Fixpoint class_has (fuel : nat) (cs : bytes) (x : N) : bool :=
+  match fuel with
+  | O => false
+  | S f =>
+    match cs with
+    | a :: m :: b :: r =>
+        if m =? 45 then ((a <=? x) && (x <=? b)) || class_has f r x
+        else (a =? x) || class_has f (m :: b :: r) x
+    | a :: r => (a =? x) || class_has f r x
+    | [] => false
+    end
+  end.
+Fixpoint class_expands_empty (fuel : nat) (cs : bytes) : bool :=
+  match fuel with
+  | O => true
+  | S f =>
+    match cs with
+    | a :: m :: b :: r => if m =? 45 then (b <? a) && class_expands_empty f r else false
+    | _ :: _ => false
+    | [] => true
+    end
+  end.
+Definition class_match (cs : bytes) (x : N) : bool :=
+  let '(negate, cs) := match cs with c :: r => if c =? 94 then (true, r) else (false, cs) | [] => (false, cs) end in
+  let n := List.length cs in
+  let m := if class_expands_empty (S n) cs then existsb (fun c => c =? x) cs else class_has (S n) cs x in
+  if negate then negb m else m.
+
+Fixpoint glob_fuel (fuel : nat) (p : bytes) (k : bytes) : bool :=
+  match fuel with
+  | O => false
+  | S f =>
+    match p with
+    | [] => match k with [] => true | _ => false end
+    | c :: p' =>
+        if c =? 42 then
+          (fix star (k : bytes) : bool :=
+             glob_fuel f p' k || match k with [] => false | _ :: k' => star k' end) k
+        else if c =? 63 then
+          match k with [] => false | _ :: k' => glob_fuel f p' k' end
+        else if c =? 91 then
+          match split_class p' with
+          | None => false
+          | Some (cs, rest) =>
+              match k with
+              | [] => false
+              | x :: k' => if class_match cs x then glob_fuel f rest k' else false
+              end
+          end
+        else match k with
+             | [] => false
+             | x :: k' => if c =? x then glob_fuel f p' k' else false
+             end
+    end
+  end.
+Definition glob (p k : bytes) : bool := glob_fuel (S (List.length p)) p k.
 
 Definition store_list (l : list bytes) : option val := match l with [] => None | _ => Some (VList l) end.
 Fixpoint insert_sorted (x : bytes) (l : list bytes) : list bytes :=
